@@ -396,7 +396,7 @@ class _Conv(object):
                     val += 1
                 self.tu.enums[c["name"]] = val
                 names.append(c["name"])
-        self.tu.enum_order[top.get("name", "")] = names
+        self.tu.enum_order[top.get("name") or ("@anon%d" % len(self.tu.enum_order))] = names
 
     def _const_int(self, n):
         while n.get("kind") in ("ImplicitCastExpr", "ParenExpr", "ConstantExpr"):
@@ -1297,3 +1297,68 @@ def pure_function(g):
         if x.k in ("asg", "incdec") and x.a[0].k != "var":
             return False
     return True
+
+
+def unroll_const_loops(func, maxiter=64):
+    """copy of func in which every  for (i = A; i < B; i++) BODY  with literal / enumerator bounds, at most maxiter iterations, and a
+    body that neither assigns i nor leaves the loop early is replaced by its iterations (i replaced by the constant; when the
+    bounds are enumerators of one enum, by the enumerator of that value).  For rules that read a per-field table written as a loop."""
+    from .omp import loop_header
+    enums = getattr(func.tu, "enums", {}) or {}
+    order = getattr(func.tu, "enum_order", {}) or {}
+
+    def enum_of(name):
+        for en, lst in order.items():
+            if name in lst:
+                return lst
+        return None
+
+    def rewrite(s):
+        if s is None or not isinstance(s, S):
+            return s
+        for attr in ("then", "els"):
+            c = getattr(s, attr)
+            if isinstance(c, S):
+                setattr(s, attr, rewrite(c))
+        if isinstance(s.body, list):
+            s.body = [rewrite(c) for c in s.body]
+        elif isinstance(s.body, S):
+            s.body = rewrite(s.body)
+        if s.k != "for":
+            return s
+        h = loop_header(s)
+        if h is None:
+            return s
+        iv, start, bound, step, direction, incl = h
+        if start.k != "int" or bound.k != "int" or step not in (1, -1) or (step > 0) != (direction > 0):
+            return s
+        lo, hi = start.val, bound.val
+        vals = list(range(lo, hi + (1 if incl else 0))) if step > 0 else list(range(lo, hi - (1 if incl else 0), -1))
+        if not vals or len(vals) > maxiter:
+            return s
+        body = s.body
+        for st in swalk(body):
+            if st.k in ("break", "continue", "goto", "label", "return"):
+                return s
+        ivdecl = None
+        for st, x in all_exprs(body):
+            if x.k in ("asg", "incdec") and x.a[0].k == "var" and x.a[0].name == iv:
+                return s
+            if x.k == "un" and x.op == "&" and x.a[0].k == "var" and x.a[0].name == iv:
+                return s
+            if x.k == "var" and x.name == iv:
+                ivdecl = x.decl
+        lst = enum_of(start.name) if start.name else (enum_of(bound.name) if bound.name else None)
+        out = []
+        for v in vals:
+            nm = None
+            if lst:
+                cand = [e_ for e_ in lst if enums.get(e_) == v]
+                nm = cand[0] if cand else None
+            lit = E("int", val=v, name=nm, ty="int", line=s.line)
+            out.append(_clone_s(body, {ivdecl: lit}) if ivdecl is not None else _clone_s(body, {}))
+        return S("block", body=out, line=s.line, end_line=s.end_line)
+    nf = Func(func.name, func.file, func.line, func.params, None, func.rettype, func.tu)
+    nf.locals = dict(func.locals)
+    nf.body = rewrite(_clone_s(func.body, {}))
+    return nf
